@@ -28,13 +28,14 @@ Definition program := list func.
 Record ast := mkast { held : bool; deferred : bool }.
 Definition ast_eqb (a b : ast) : bool := Bool.eqb (held a) (held b) && Bool.eqb (deferred a) (deferred b).
 
-Inductive policy := PThread | PPrivate.   (* how a body is entered and must be left *)
+Inductive policy := PThread | PPrivate | PGo.   (* how a body is entered and must be left; PGo: a goroutine literal *)
 
 (* may the body be left in state st? thread/public: lock released (possibly by the deferred
-   unlock); private method: lock still held, nothing deferred *)
+   unlock); private method: lock still held, nothing deferred; goroutine: as thread, but it has
+   no caller to hand the lock to, so CErrReturn is rejected in it *)
 Definition exit_ok (pol : policy) (st : ast) : bool :=
   match pol with
-  | PThread => if deferred st then held st else negb (held st)
+  | PThread | PGo => if deferred st then held st else negb (held st)
   | PPrivate => held st && negb (deferred st)
   end.
 
@@ -52,9 +53,9 @@ Fixpoint check (P : program) (pol : policy) (c : cmd) (st : ast) : option (optio
       | None => None
       end
   | CGo c' =>
-      match check P PThread c' (mkast false false) with
+      match check P PGo c' (mkast false false) with
       | Some None => Some (Some st)
-      | Some (Some st') => if exit_ok PThread st' then Some (Some st) else None
+      | Some (Some st') => if exit_ok PGo st' then Some (Some st) else None
       | None => None
       end
   | CSeq a b =>
@@ -76,7 +77,7 @@ Fixpoint check (P : program) (pol : policy) (c : cmd) (st : ast) : option (optio
       | Some (Some st') => if ast_eqb st' st then Some (Some st) else None
       end
   | CReturn => if exit_ok pol st then Some None else None
-  | CErrReturn => match pol with PThread => if held st && negb (deferred st) then Some None else None | PPrivate => None end
+  | CErrReturn => match pol with PThread => if held st && negb (deferred st) then Some None else None | PPrivate | PGo => None end
   | CUnknown => None
   end.
 
